@@ -135,6 +135,8 @@ struct PipHarness : Harness {
     for (long i = 0; i < n; ++i) {
       Op op; op.kind = kinds[r.below(sizeof kinds / sizeof *kinds)];
       if (op.kind == "clear" && r.chance(80)) op.kind = "add_constraint";
+      // constraints on the parameters alone (they change the context: decision nodes become redundant and are merged)
+      if (op.kind == "add_constraint" && p.knobs["params"] > 0 && r.chance(25)) op.kind = "add_param_constraint";
       op.a = { r.range(0, 1), r.range(0, 1), r.range(0, 5) };
       for (int k = 0; k < 2; ++k) { for (dimension_type j = 0; j < MAXD; ++j) op.a.push_back(r.chance(40) ? 0 : r.range(-3, 3)); op.a.push_back(r.range(-4, 4)); op.a.push_back(r.range(0, 5)); }
       if (prop == "C15" && (op.kind == "solve" || op.kind == "is_satisfiable") && r.chance(60)) {   // C15: reload right after a solve (solved trees are what is worth reloading)
@@ -277,9 +279,9 @@ struct PipHarness : Harness {
     s.p->add_constraint(Variable(v) <= VBOX);
   }
 
-  static void add_row(Slot& s, const Op& op, size_t base, bool strict_ok) {
+  static void add_row(Slot& s, const Op& op, size_t base, bool strict_ok, bool params_only = false) {
     Row r; r.a.assign(s.m.dim, 0); Linear_Expression e;
-    for (dimension_type j = 0; j < s.m.dim; ++j) { long a = op.arg(base + j) % 4; r.a[j] = a; e += a * Variable(j); }
+    for (dimension_type j = 0; j < s.m.dim; ++j) { long a = op.arg(base + j) % 4; if (params_only && !s.m.params.count(j)) a = 0; r.a[j] = a; e += a * Variable(j); }
     r.b = op.arg(base + MAXD) % 5; e += r.b;
     long rel = op.mod(base + MAXD + 1, 6);
     r.rel = rel == 0 ? 0 : (rel == 1 && strict_ok) ? 2 : 1;
@@ -397,6 +399,7 @@ struct PipHarness : Harness {
       if (!ctx.viols.empty()) break;
       try {
         if (k == "add_constraint") add_row(x, op, 3, strict_ok);
+        else if (k == "add_param_constraint") { add_row(x, op, 3, strict_ok, true); if (x.solved_before) x.added_after_solve = true; }
         else if (k == "add_constraints") { add_row(x, op, 3, strict_ok); add_row(x, op, 3 + MAXD + 2, strict_ok); }
         else if (k == "set_strategy") { x.cut = (int) op.mod(2, 3); x.piv = (int) op.mod(3, 2); x.p->set_control_parameter(CUTS[x.cut]); x.p->set_control_parameter(PIVS[x.piv]); }
         else if (k == "add_dims") { dimension_type mv = (dimension_type) op.mod(2, 2), mp = (dimension_type) op.mod(3, 2); if (x.m.dim + mv + mp > MAXD || mv + mp == 0) continue;
